@@ -166,6 +166,13 @@ def add_rows_the_loader_drops(spec, seed):
 
 
 def task(seed):
+    try:
+        return _task(seed)
+    except runner.HarnessError as e:
+        raise runner.HarnessError("run seed %d: %s" % (seed, e))
+
+
+def _task(seed):
     spec = add_rows_the_loader_drops(widen(wp.spec_from_seed(seed, boundary=True), seed), seed)
     # keep a single run inside the budget: the cross product is sampled, not the product of all maxima
     while cost(spec) > 20000 and not spec.get("big"):
